@@ -123,6 +123,17 @@ fn cfams() -> Vec<(&'static str, fn(Cmplx) -> Cmplx, fn(Cmplx) -> Cmplx, Cmplx, 
         ("(z-1-i)(z+2) @-2", |z| (z - Cmplx::new(1.0, 1.0)) * (z + 2.0), |z| z * 2.0 + Cmplx::new(1.0, -1.0), Cmplx::new(-2.0, 0.0), 0.5),
     ]
 }
+/// complex helpers of the reference, independent of ohsl's Complex operators
+fn cdiv(a: Cmplx, b: Cmplx) -> Cmplx {
+    let d = b.real * b.real + b.imag * b.imag;
+    Cmplx::new((a.real * b.real + a.imag * b.imag) / d, (a.imag * b.real - a.real * b.imag) / d)
+}
+fn csub(a: Cmplx, b: Cmplx) -> Cmplx {
+    Cmplx::new(a.real - b.real, a.imag - b.imag)
+}
+fn cmod(a: Cmplx) -> f64 {
+    a.real.hypot(a.imag)
+}
 fn complex_case(fi: usize, gi: usize, tol: f64, max_iter: usize, acc: &mut Acc) -> Result<(), String> {
     let (name, f, df, root, rho) = cfams()[fi];
     let dirs = [(1.0, 0.0), (0.0, 1.0), (-1.0, 0.0), (0.0, -1.0), (0.7, 0.7), (-0.7, 0.7), (0.0, 0.0), (0.25, -0.1), (-0.5, -0.5)];
@@ -134,11 +145,11 @@ fn complex_case(fi: usize, gi: usize, tol: f64, max_iter: usize, acc: &mut Acc) 
     let mut k_exact = None;
     let mut maxstep = 0.0f64;
     for k in 1..=200 {
-        let dx = f(x) / df(x);
-        x -= dx;
+        let dx = cdiv(f(x), df(x));
+        x = csub(x, dx);
         xs.push(x);
-        maxstep = maxstep.max(dx.abs());
-        if dx.abs() <= tol {
+        maxstep = maxstep.max(cmod(dx));
+        if cmod(dx) <= tol {
             k_exact = Some(k);
             break;
         }
@@ -168,14 +179,14 @@ fn complex_case(fi: usize, gi: usize, tol: f64, max_iter: usize, acc: &mut Acc) 
     match res {
         Ok(z) => {
             acc.hit("Ok answers");
-            let bound = 4.0 * tol + 1e-12 * root.abs().max(1.0);
-            ensure!((z - root).abs() <= bound, "{}: Ok({:?}) but the root is {:?}", name, z, root);
+            let bound = 4.0 * tol + 1e-12 * cmod(root).max(1.0);
+            ensure!(cmod(csub(z, root)) <= bound, "{}: Ok({:?}) but the root is {:?}", name, z, root);
         }
         Err(v) => {
             acc.hit("Err answers");
             ensure!(max_iter < k_exact + 2, "{}: Err although {} iterations suffice and {} were allowed", name, k_exact, max_iter);
             if max_iter < xs.len() {
-                ensure!((v - xs[max_iter]).abs() <= 1e-5 * maxstep + 1e-9, "{}: Err({:?}) is not the iterate after {} steps ({:?})", name, v, max_iter, xs[max_iter]);
+                ensure!(cmod(csub(v, xs[max_iter])) <= 1e-5 * maxstep + 1e-9, "{}: Err({:?}) is not the iterate after {} steps ({:?})", name, v, max_iter, xs[max_iter]);
             }
         }
     }
@@ -357,7 +368,7 @@ fn csystem_case(n: usize, gi: usize, tol: f64, max_iter: usize, exact_jac: bool,
     match &res {
         Ok(v) => {
             acc.hit("Ok answers");
-            let err = (0..n).map(|i| (v[i] - xr[i]).abs()).fold(0.0, f64::max);
+            let err = (0..n).map(|i| cmod(csub(v[i], xr[i]))).fold(0.0, f64::max);
             ensure!(err <= 4.0 * tol + 1e-11, "complex system: Ok but ||x - root|| = {:e}", err);
         }
         Err(_) => {
@@ -393,31 +404,53 @@ fn deviate(kind: usize, default: f64) -> f64 {
         _ => default,
     }
 }
-/// run one entry point with the scripted closure; returns (summary bits of the outcome, number of calls) or Err(panic message)
-fn scripted_run(e: Entry, base: usize, max_iter: usize, script: &[(usize, usize)]) -> Result<(Vec<u64>, usize), String> {
+/// outcome of one scripted run
+struct Run {
+    bits: Vec<u64>,
+    answers: usize,
+    evals: usize,
+    /// residual vectors handed back by the closure (system entries), as moduli per component
+    log: Vec<Vec<f64>>,
+}
+const SCRIPT_TOL: f64 = 1e-8;
+/// run one entry point with the scripted closure
+fn scripted_run(e: Entry, base: usize, max_iter: usize, script: &[(usize, usize)]) -> Result<Run, String> {
     let calls = Cell::new(0usize);
+    let evals = Cell::new(0usize);
+    let log: std::cell::RefCell<Vec<Vec<f64>>> = std::cell::RefCell::new(vec![]);
     let n = 2usize;
-    let limit = 4 * (n + 2) * max_iter + 8;
+    let limit = 8 * (n + 2) * max_iter + 16;
     let answer = |default: f64| -> f64 {
         let i = calls.get();
         calls.set(i + 1);
         if i + 1 > limit {
-            panic!("EVAL_LIMIT: more than {} evaluations", limit);
+            panic!("EVAL_LIMIT: more than {} answers", limit);
         }
         match script.iter().find(|(p, _)| *p == i) {
             Some((_, k)) => deviate(*k, default),
             None => default,
         }
     };
-    // base functions: 0 = root-free x^2+1, 1 = non-differentiable |x|+1, 2 = x^2-2 (has a root);
-    // bases 3..5 are the same three functions started at 0 (zero derivative / kink at the first step)
-    let start = if base >= 3 { 0.0 } else { 1.5 };
-    let base = base % 3;
+    // base functions: 0 = root-free x^2+1, 1 = non-differentiable |x|+1, 2 = x^2-2 (has a root), 3 = x - 1.5 (the guess is the root);
+    // bases 3..5 are functions 0..2 started at 0 (zero derivative / kink at the first step), base 6 is function 3
+    let (fun, start) = match base {
+        0..=2 => (base, 1.5),
+        3..=5 => (base - 3, 0.0),
+        _ => (3, 1.5),
+    };
     let fb = |x: f64| -> f64 {
-        match base {
+        match fun {
             0 => x * x + 1.0,
             1 => x.abs() + 1.0,
-            _ => x * x - 2.0,
+            2 => x * x - 2.0,
+            _ => x - 1.5,
+        }
+    };
+    let dfb = |x: f64| -> f64 {
+        match fun {
+            0 | 2 => 2.0 * x,
+            1 => x.signum(),
+            _ => 1.0,
         }
     };
     let out = catch(|| -> (Vec<u64>, bool) {
@@ -426,7 +459,10 @@ fn scripted_run(e: Entry, base: usize, max_iter: usize, script: &[(usize, usize)
                 let mut nw = Newton::<f64>::new(start);
                 nw.iterations(max_iter);
                 let before = nw.parameters();
-                let r = nw.solve(&|x| answer(fb(x)));
+                let r = nw.solve(&|x| {
+                    evals.set(evals.get() + 1);
+                    answer(fb(x))
+                });
                 let same = before.0 == nw.parameters().0 && before.1 == nw.parameters().1 && before.2 == nw.parameters().2 && before.3.to_bits() == nw.parameters().3.to_bits();
                 match r {
                     Ok(v) => (vec![1, v.to_bits()], same),
@@ -437,7 +473,10 @@ fn scripted_run(e: Entry, base: usize, max_iter: usize, script: &[(usize, usize)
                 let mut nw = Newton::<Cmplx>::new(Cmplx::new(start, 0.0));
                 nw.iterations(max_iter);
                 let before = nw.parameters();
-                let r = nw.solve(&|z: Cmplx| Cmplx::new(answer(fb(z.real)), 0.0));
+                let r = nw.solve(&|z: Cmplx| {
+                    evals.set(evals.get() + 1);
+                    Cmplx::new(answer(fb(z.real)), 0.0)
+                });
                 let same = before.2 == nw.parameters().2 && before.3 == nw.parameters().3;
                 match r {
                     Ok(v) => (vec![1, v.real.to_bits(), v.imag.to_bits()], same),
@@ -447,10 +486,17 @@ fn scripted_run(e: Entry, base: usize, max_iter: usize, script: &[(usize, usize)
             Entry::Vec | Entry::VecJac => {
                 let mut nw = Newton::<Vec64>::new(Vector::create(vec![1.5, -0.5]));
                 nw.iterations(max_iter);
-                let f = |v: Vec64| -> Vec64 { Vector::create(vec![answer(fb(v[0])), v[1] + 0.5 * v[0]]) };
+                nw.tolerance(SCRIPT_TOL);
+                // both residual components go through the script
+                let f = |v: Vec64| -> Vec64 {
+                    evals.set(evals.get() + 1);
+                    let r = vec![answer(fb(v[0])), answer(v[1] + 0.5 * v[0])];
+                    log.borrow_mut().push(r.iter().map(|x| x.abs()).collect());
+                    Vector::create(r)
+                };
                 let jac = |v: Vec64| -> Mat64 {
                     let mut m = Mat64::new(2, 2, 0.0);
-                    m[(0, 0)] = 2.0 * v[0];
+                    m[(0, 0)] = dfb(v[0]);
                     m[(1, 0)] = 0.5;
                     m[(1, 1)] = 1.0;
                     m
@@ -466,10 +512,19 @@ fn scripted_run(e: Entry, base: usize, max_iter: usize, script: &[(usize, usize)
                 let nw0 = Vector::create(vec![Cmplx::new(1.5, 0.0), Cmplx::new(-0.5, 0.25)]);
                 let mut nw = Newton::<Vector<Cmplx>>::new(nw0);
                 nw.iterations(max_iter);
-                let f = |v: Vector<Cmplx>| -> Vector<Cmplx> { Vector::create(vec![Cmplx::new(answer(fb(v[0].real)), v[0].imag), v[1] + v[0] * 0.5]) };
+                nw.tolerance(SCRIPT_TOL);
+                let f = |v: Vector<Cmplx>| -> Vector<Cmplx> {
+                    evals.set(evals.get() + 1);
+                    let second = v[1] + v[0] * 0.5 - Cmplx::new(0.0, 0.25);
+                    let r = vec![Cmplx::new(answer(fb(v[0].real)), v[0].imag), Cmplx::new(answer(second.real), second.imag)];
+                    // moduli computed independently of ohsl (hypot propagates NaN, maps inf to inf)
+                    log.borrow_mut().push(r.iter().map(|z| if z.real.is_nan() || z.imag.is_nan() { f64::NAN } else { z.real.hypot(z.imag) }).collect());
+                    Vector::create(r)
+                };
                 let jac = |v: Vector<Cmplx>| -> Matrix<Cmplx> {
                     let mut m = Matrix::<Cmplx>::new(2, 2, Cmplx::new(0.0, 0.0));
-                    m[(0, 0)] = v[0] * 2.0;
+                    m[(0, 0)] = Cmplx::new(dfb(v[0].real), 0.0);
+                    m[(0, 0)].imag = if fun == 3 { 0.0 } else { 2.0 * v[0].imag };
                     m[(1, 0)] = Cmplx::new(0.5, 0.0);
                     m[(1, 1)] = Cmplx::new(1.0, 0.0);
                     m
@@ -487,10 +542,20 @@ fn scripted_run(e: Entry, base: usize, max_iter: usize, script: &[(usize, usize)
             if !same {
                 return Err("configuration / guess changed by the call".to_string());
             }
-            Ok((bits, calls.get()))
+            Ok(Run { bits, answers: calls.get(), evals: evals.get(), log: log.into_inner() })
         }
         Err(p) => Err(format!("panic: {}", p)),
     }
+}
+/// Reference model of the termination logic for the user-Jacobian system entries, where every closure call is one residual:
+/// success at the first residual whose components all have modulus <= tol (a NaN component is not <= tol), failure after max_iter residuals.
+fn model_outcome(log: &[Vec<f64>], max_iter: usize) -> (bool, usize) {
+    for (k, f) in log.iter().enumerate().take(max_iter) {
+        if f.iter().all(|m| *m <= SCRIPT_TOL) {
+            return (true, k + 1);
+        }
+    }
+    (false, max_iter)
 }
 
 trait ParamsVec {
@@ -513,11 +578,47 @@ fn eval_bound(e: Entry, max_iter: usize) -> usize {
 }
 
 struct ScriptStats {
+    model_ok: u64,
     scripts: u64,
     transitions: u64,
     with_nan: u64,
     samples: Vec<serde_json::Value>,
     viols: Vec<Viol>,
+}
+
+/// every oracle of the termination half for one executed script (shared by exploration and replay)
+fn script_verdicts(e: Entry, base: usize, max_iter: usize, script: &[(usize, usize)], run1: &Run, run2: &Run) -> (Vec<String>, bool) {
+    let mut out = vec![];
+    let mut model_ok = false;
+    let (b1, n1, b2, n2) = (&run1.bits, &run1.answers, &run2.bits, &run2.answers);
+    if b1 != b2 || n1 != n2 {
+        out.push(format!("two runs of the same script differ: {:?}/{} vs {:?}/{}", b1, n1, b2, n2));
+    }
+    if run1.evals > eval_bound(e, max_iter) {
+        out.push(format!("{} evaluations exceed the bound {} for max_iter = {}", run1.evals, eval_bound(e, max_iter), max_iter));
+    }
+    let root_free = matches!(base, 0 | 1 | 3 | 4);
+    if script.is_empty() && root_free && b1[0] == 1 {
+        out.push("success reported on a root-free function".to_string());
+    }
+    let system = !matches!(e, Entry::F64 | Entry::Cmplx);
+    // systems stop on the residual norm: with a root-free first component and no scripted answer "0"
+    // every residual ever returned has a first component of modulus >= 1, infinite or NaN
+    if system && root_free && b1[0] == 1 && !script.iter().any(|(_, k)| *k == 1) {
+        out.push(format!("success reported although no residual was ever small (residual moduli seen: {:?})", run1.log));
+    }
+    // user-supplied Jacobian: every closure call is one residual, so the outcome is decided by the logged residuals alone
+    if matches!(e, Entry::VecJac | Entry::CVecJac) {
+        let (ok, evals) = model_outcome(&run1.log, max_iter);
+        if ok != (b1[0] == 1) || evals != run1.evals {
+            out.push(format!("termination differs from the reference model: {} after {} residual evaluations, model says {} after {} (residual moduli: {:?}, tol {:e})", if b1[0] == 1 { "Ok" } else { "Err" }, run1.evals, if ok { "Ok" } else { "Err" }, evals, run1.log, SCRIPT_TOL));
+        }
+        model_ok = ok;
+    }
+    if max_iter == 0 && b1[0] == 1 {
+        out.push("success reported with max_iter = 0".to_string());
+    }
+    (out, model_ok)
 }
 
 fn explore_scripts(ctx: &Ctx, e: Entry, base: usize, max_iter: usize, dmax: usize, st: &mut ScriptStats, space: &str) {
@@ -537,24 +638,20 @@ fn explore_scripts(ctx: &Ctx, e: Entry, base: usize, max_iter: usize, dmax: usiz
             st.with_nan += 1;
         }
         match (&r1, &r2) {
-            (Ok((b1, n1)), Ok((b2, n2))) => {
+            (Ok(run1), Ok(run2)) => {
+                let (b1, n1) = (&run1.bits, &run1.answers);
                 st.transitions += *n1 as u64;
-                if b1 != b2 || n1 != n2 {
-                    fail(format!("two runs of the same script differ: {:?}/{} vs {:?}/{}", b1, n1, b2, n2), st);
+                let (vs, model_ok) = script_verdicts(e, base, max_iter, &script, run1, run2);
+                for v in vs {
+                    fail(v, st);
                 }
-                if *n1 > eval_bound(e, max_iter) {
-                    fail(format!("{} evaluations exceed the bound {} for max_iter = {}", n1, eval_bound(e, max_iter), max_iter), st);
-                }
-                if script.is_empty() && base % 3 < 2 && b1[0] == 1 {
-                    fail("success reported on a root-free function".to_string(), st);
+                if model_ok {
+                    st.model_ok += 1;
                 }
                 // NOTE: "a scalar Ok carries a finite point" is NOT judged on scripted runs: with two deviations a correct
                 // implementation can return Ok(-inf) (first step from a zero derivative sends the iterate to -inf, a later
                 // scripted answer 0 makes the step 0). That oracle raised a false alarm in the thorough tier and was removed;
                 // the NaN-step defect class is caught by the script-free runs started at 0 (root-free => Err).
-                if max_iter == 0 && b1[0] == 1 {
-                    fail("success reported with max_iter = 0".to_string(), st);
-                }
                 if st.samples.len() < 4 && !script.is_empty() {
                     st.samples.push(json!({"entry": format!("{:?}", e), "script": key, "calls": n1, "outcome": if b1[0] == 1 { "Ok" } else { "Err" }}));
                 }
@@ -738,7 +835,7 @@ fn main() {
     let space = "answer scripts (termination half)";
     if ctx.wants(space) {
         let t0 = std::time::Instant::now();
-        let mut st = ScriptStats { scripts: 0, transitions: 0, with_nan: 0, samples: vec![], viols: vec![] };
+        let mut st = ScriptStats { model_ok: 0, scripts: 0, transitions: 0, with_nan: 0, samples: vec![], viols: vec![] };
         if let Some(rp) = &ctx.replay {
             let e = match rp.extra["entry"].as_str().unwrap_or("F64") {
                 "Cmplx" => Entry::Cmplx,
@@ -751,22 +848,23 @@ fn main() {
             let script: Vec<(usize, usize)> = rp.extra["script"].as_array().map(|a| a.iter().map(|p| (p[0].as_u64().unwrap() as usize, p[1].as_u64().unwrap() as usize)).collect()).unwrap_or_default();
             let (base, mi) = (rp.extra["base"].as_u64().unwrap_or(0) as usize, rp.extra["max_iter"].as_u64().unwrap_or(1) as usize);
             let r = scripted_run(e, base, mi, &script);
-            eprintln!("REPLAY script {:?} -> {:?}", script, r);
+            let r2 = scripted_run(e, base, mi, &script);
             let mut acc = Acc::new(space);
             acc.begin_case();
-            match r {
-                Ok((bits, n)) => {
-                    if n > eval_bound(e, mi) || (script.is_empty() && base % 3 < 2 && bits[0] == 1) || (mi == 0 && bits[0] == 1) {
-                        acc.fail_extra(0, format!("{:?}", script), "bounded-work / failure-report oracle violated".into(), rp.extra.clone());
+            match (r, r2) {
+                (Ok(run1), Ok(run2)) => {
+                    eprintln!("REPLAY script {:?} -> outcome bits {:?}, {} evaluations, residual moduli {:?}", script, run1.bits, run1.evals, run1.log);
+                    for v in script_verdicts(e, base, mi, &script, &run1, &run2).0 {
+                        acc.fail_extra(0, format!("{:?}", script), v, rp.extra.clone());
                     }
                 }
-                Err(m) => acc.fail_extra(0, format!("{:?}", script), m, rp.extra.clone()),
+                (Err(m), _) | (_, Err(m)) => acc.fail_extra(0, format!("{:?}", script), m, rp.extra.clone()),
             }
             ctx.absorb(space, "E4-scripts", 1, 1, false, acc, vec![], 0.0);
         } else {
             let dmax = ctx.pick(1, 2);
             for e in [Entry::F64, Entry::Cmplx, Entry::Vec, Entry::VecJac, Entry::CVec, Entry::CVecJac] {
-                for base in 0..6 {
+                for base in 0..7 {
                     for mi in 0..=3 {
                         explore_scripts(&ctx, e, base, mi, dmax, &mut st, space);
                     }
@@ -782,6 +880,10 @@ fn main() {
             s.transitions = st.transitions.max(1);
             s.depth = dmax as u64;
             s.hits.insert("scripts with a NaN answer".into(), st.with_nan);
+            s.hits.insert("user-Jacobian runs the reference model ends in Ok".into(), st.model_ok);
+            if st.model_ok == 0 {
+                ctx.machinery_error("vacuity: the termination model never predicted Ok".into());
+            }
             s.samples = st.samples;
             s.viol_total = st.viols.len() as u64;
             s.wall_s = t0.elapsed().as_secs_f64();
